@@ -115,7 +115,7 @@ def run(ctx, n):
                        'oracle: standalone validation of every definition of every top-level *of rule vs presence, counts and '
                        'definition indices of the error; port: validate0; non-trivial = a field with an *of rule and a non-None value '
                        'of the right type; distinct by canonical case')
-    profiles = ['of', 'of', 'deep', 'of']
+    profiles = ['of', 'of', 'deep', 'of', 'update']
     with Driver() as drv:
         for i, prof, case, g in cases.stream(ctx.seed, n, profiles):
             if cases.accepted(case) is not True:
